@@ -153,6 +153,23 @@ def machine_cases():
         bad.setdefault(ti, []).append(cl)
     for i, (name, _, exp) in enumerate(variants):
         out.append(("LoDSMTrace", name, (bad.get(i) or [""])[0], exp))
+    # Compare (beyond the listed properties)
+    from props import compare
+    from harness import gamma
+    X = compare.frame_abs([0, 2, 4], [0, 2, -1])
+    Y = compare.frame_abs([2, 6, 0], [4, 0, 0])
+    rec = compare.execute(X, Y, gamma.STR_SHORT, gamma.FLOAT_INF)
+    variants = [("compare accepted", rec, "")]
+    r2 = copy.deepcopy(rec); r2["changed"][0]["y"] = 2
+    variants.append(("changed value misreported", r2, "compare:changed-is-not-one-row"))
+    r3 = copy.deepcopy(rec); r3["added"]["cell"]["k"] = [2]
+    variants.append(("added names a matched row", r3, "compare:added-is-not"))
+    r4 = copy.deepcopy(rec); r4["removedNone"] = True
+    variants.append(("removed missing", r4, "compare:removed-is-not"))
+    ctx = core.Ctx("SELFTEST", "quick", 0)
+    bad = dict(ctx.validate("CompareTrace", [v[1] for v in variants]))
+    for i, (name, _, exp) in enumerate(variants):
+        out.append(("CompareTrace", name, bad.get(i, ""), exp))
     return out
 
 
